@@ -128,9 +128,16 @@ func (r *Rng) renderText(s string, inAttr bool, quote byte) string {
 	i := 0
 	for i < len(rs) {
 		// CDATA run (text only)
-		if !inAttr && r.P(8) {
+		// (also a CDATA section holding nothing but an interior blank: a white-space-only token in
+		// the middle of a character-data run)
+		blankInside := (rs[i] == ' ' || rs[i] == '\t' || rs[i] == '\n') && i > 0 && i < len(rs)-1
+		if !inAttr && (r.P(8) || (blankInside && r.P(25))) {
+			n := 1 + r.Intn(6)
+			if blankInside && r.P(60) {
+				n = 1
+			}
 			j := i
-			for j < len(rs) && j-i < 6 {
+			for j < len(rs) && j-i < n {
 				j++
 			}
 			chunk := string(rs[i:j])
@@ -236,9 +243,9 @@ type XGen struct {
 	SeqShape   bool // C04 domain: text alone or ahead of the child elements; <= 1 comment, PI, directive per element
 }
 
-var xmlNames = []string{"a", "b", "c", "item", "k", "A", "Item", "a-b", "x_y", "list", "n1", "a.b"}
-var xmlAttrNames = []string{"id", "x", "a", "Type", "data-v", "k", "lang"}
-var xmlTexts = []string{"hello", "x<y", "R&D", "\"q\"", "it's", "]]>", "&amp;", "&#x41;", "a b", " pad ", "1", "3.5", "true", "<![CDATA[", "é", "日本", "&", "<", ">", "-5", "tRuE", "NaN", "1e3", "0x1F", "\ttab", "a&b<c>d\"e'f", "x]]", "&lt;tag&gt;", "00", "T", "f", "1e19", "18446744073709551616", "-3e25", "1000000", "1e6", "9007199254740993", "0.1", "1e-7"}
+var xmlNames = []string{"a", "b", "c", "item", "k", "A", "Item", "a-b", "x_y", "list", "n1", "a.b", "a-b-c", "X-y-Z"}
+var xmlAttrNames = []string{"id", "x", "a", "Type", "data-v", "k", "lang", "data-v-2"}
+var xmlTexts = []string{"hello", "x<y", "R&D", "\"q\"", "it's", "]]>", "&amp;", "&#x41;", "a b", " pad ", "1", "3.5", "true", "<![CDATA[", "é", "日本", "&", "<", ">", "-5", "tRuE", "NaN", "1e3", "0x1F", "\ttab", "a&b<c>d\"e'f", "x]]", "&lt;tag&gt;", "00", "T", "f", "1e19", "18446744073709551616", "-3e25", "1000000", "1e6", "9007199254740993", "0.1", "1e-7", "a  b", "l1\nl2", "x \t y"}
 
 func (r *Rng) xmlNode(g *XGen, depth int) *XNode {
 	n := &XNode{Kind: 'N', Name: r.Pick(g.Names)}
